@@ -116,9 +116,58 @@ func affineOf(v ssa.Value, atom func(ssa.Value) string, depth int) Affine {
 		}
 	}
 	if name := atom(v); name != "" {
+		if strings.HasPrefix(name, "=") {
+			return DecodeAffine(name)
+		}
 		return Affine{Terms: map[string]int64{name: 1}, OK: true}
 	}
 	return Affine{}
+}
+
+// Encode renders an affine form so that an atom callback can return it as a substitution
+// (the callback returns "=" + encoding instead of an atom name).
+func (a Affine) Encode() string {
+	if !a.OK {
+		return ""
+	}
+	var parts []string
+	parts = append(parts, fmt.Sprint(a.C))
+	var keys []string
+	for k, v := range a.Terms {
+		if v != 0 {
+			keys = append(keys, k)
+		}
+	}
+	sort.Strings(keys)
+	for _, k := range keys {
+		parts = append(parts, fmt.Sprintf("%s:%d", k, a.Terms[k]))
+	}
+	return "=" + strings.Join(parts, ";")
+}
+
+// DecodeAffine parses Encode's output.
+func DecodeAffine(s string) Affine {
+	s = strings.TrimPrefix(s, "=")
+	parts := strings.Split(s, ";")
+	a := Affine{Terms: map[string]int64{}, OK: true}
+	for i, p := range parts {
+		if i == 0 {
+			if _, err := fmt.Sscan(p, &a.C); err != nil {
+				return Affine{}
+			}
+			continue
+		}
+		j := strings.LastIndex(p, ":")
+		if j < 0 {
+			return Affine{}
+		}
+		var c int64
+		if _, err := fmt.Sscan(p[j+1:], &c); err != nil {
+			return Affine{}
+		}
+		a.Terms[p[:j]] += c
+	}
+	return a
 }
 
 func lenAtom(v ssa.Value, atom func(ssa.Value) string, depth int) Affine {
